@@ -19,11 +19,12 @@ def gen_struct(rng, sname):
             elif k < 0.75:
                 f = rng.choice(fields)
                 sz = f[1] + 1
-                etxt = "%s.%s + 1" % (sname, f[0])
+                # an earlier field, spelled in full or locally (the struct is the scope inside its body)
+                etxt = rng.choice(["%s.%s + 1" % (sname, f[0]), ".%s + 1" % f[0]])
             else:
                 f = rng.choice(fields)
                 sz = f[2] * 2
-                etxt = "@sizeof %s.%s * 2" % (sname, f[0])
+                etxt = rng.choice(["@sizeof %s.%s * 2" % (sname, f[0]), "@sizeof .%s * 2" % f[0]])
             colon = ":" if rng.random() < 0.4 else ""
             lines.append("  %s%s %s" % (name, colon, etxt))
             fields.append((name, size, sz)); size += sz
@@ -73,6 +74,12 @@ def run(ck):
             e = "OK " + (b"".join(le16(v) for v in vals) * 2 + le16(after_addr)).hex()
         progs.append((arch, "\n".join(text) + "\n")); expect.append(e)
         meta.append(len(lines) if any("@align" in l or "@ds" in l for l in lines) else 0)
+    # the scope in force before @struct is restored after @endstruct: also when there was none
+    for arch in asmk.ARCHES:
+        for use in ["@dw .f1", ".c1:", "@defn .c1, 1", "@db @isdef .f1", "@dw @sizeof .f1"]:
+            progs.append((arch, "@struct SS\nf1 2\n@endstruct\n%s\n" % use)); expect.append("DIAG"); meta.append(0)
+        progs.append((arch, "@org $300\ngl0:\n.f1:\n@struct SS\nf1 2\nf2 .f1 + 3\n@endstruct\n@dw .f1, SS.f1, SS.f2, SS\n"))
+        expect.append("OK " + (le16(0x300) + le16(0) + le16(2) + le16(5)).hex()); meta.append(3)
     # ill-formed declarations must be diagnosed (not mis-laid-out)
     for t in ["@struct SS\nf1 1\nf1 2\n@endstruct\n", "@struct SS\n@align 1\n@endstruct\n", "@struct SS\nf1 later\n@endstruct\n@defn later, 3\n",
               "SS:\n@struct SS\n@endstruct\n", "@struct SS\n.f1 1\n@endstruct\n", "@struct SS\nf1 1\n"]:
